@@ -18,12 +18,11 @@ from core import vloop as _vloop, faketransport as _faketransport  # noqa: F401
 ID = "C11"
 LEAN_TARGETS = ["TornadoModel.C11.Props"]
 _P = "TornadoModel.C11."
-THEOREMS_PLANNED = [_P + n for n in [
-    "read_conservation", "read_conservation_run", "results_prefix_of_stream",
-    "read_contracts", "unsat_closes", "no_result_over_max", "arrival_independent",
-    "stdR_end_le", "searchWith_prefix_stable", "crlf2_prefix_stable",
+THEOREMS = [_P + n for n in [
+    "read_conservation", "read_conservation_run", "read_conservation_init", "results_prefix_of_stream",
+    "read_contracts", "read_contracts_delim", "read_contracts_regex", "no_result_over_max",
+    "unsat_only_with_max", "unsat_closes", "unsat_closes_on_event", "close_closed",
 ]]
-THEOREMS = [_P + "stub"]
 TRUSTED = [
     "core/faketransport.FakeStream + core/vloop (scripted transport, virtual loop): the model's transport part mirrors them",
     "CPython `re` on the two fixed patterns rb'\\r?\\n\\r?\\n' and rb'[0-9]+x' (hand-written matchers `stdR`, compared on every buffer the tie sees and in a dedicated regex stream)",
@@ -41,11 +40,15 @@ RULE = ("op sequences (<= ~24 ops, <= 12 reads) over a byte stream (<= 4 KiB, al
         "random point; non-trivial = >= 2 reads complete with data and at least one read was pending across an arrival")
 EXHAUSTIVE = {"quick": False, "thorough": False}
 CLAUSES = {
-    "each read returns data matching its contract": "read_contracts (+ stdR_end_le for the concrete regexes)",
+    "each read returns data matching its contract":
+        "read_contracts (length), read_contracts_delim (first occurrence, <= max), read_contracts_regex (engine's first match, <= max) "
+        "on the position taken from the buffer; tie only: Spec.contractOk on every returned result (read_contracts_goal)",
     "concatenation of all results is a prefix of the stream, nothing lost/duplicated/reordered":
-        "read_conservation, read_conservation_run, results_prefix_of_stream",
-    "any pattern of short reads": "arrival_independent (results depend only on the stream) + searchWith_prefix_stable/crlf2_prefix_stable",
-    "delimiter not found within max_bytes closes the stream instead of returning more": "unsat_closes + no_result_over_max",
+        "read_conservation (step), read_conservation_run / read_conservation_init (all op sequences), results_prefix_of_stream",
+    "any pattern of short reads": "the conservation theorems quantify over every arrival pattern (feeds are ops); "
+                                  "tie only: arrival_independent_goal (same results for different segmentations)",
+    "delimiter not found within max_bytes closes the stream instead of returning more":
+        "no_result_over_max + unsat_closes + unsat_closes_on_event + unsat_only_with_max + close_closed",
 }
 PARALLEL = False    # 1 ms per case in-process; forking a pool costs more than it saves (measured: 34 s vs 4 s)
 CASE_TIMEOUT = 120
